@@ -72,6 +72,14 @@ class Prop(PropBase):
                    "rate_hz": rng.choice([1e3, 1e3, 1e6, 1e9]), "qunit": rng.choice(["s", "ms", "us", "ns"]),
                    "t0": rng.choice(sigs.T0S + [None])}
 
+        # whole-sample shifts written as times, at rates whose sample period is no exact double (n/rate*rate must come back as n:
+        # a conversion through the rounded period 1/rate lands an ulp off for some n, and ceil/floor then moves an edge)
+        for rate in ([1e7, 3e3] if tier == "quick" else [1e7, 3e3, 2.5e6, 1.6e9, 44100.0]):
+            for nsh in range(-40, 41):
+                yield {"op": "shift", "cls": "Signal", "N": 64, "dtype": "f8", "sshape": [], "shp": [], "vals": [float(nsh)],
+                       "crop": nsh % 2 == 0, "quantity": True, "seed": 1000 + nsh, "rate_hz": rate,
+                       "qunit": ["s", "us", "ms"][nsh % 3], "t0": sigs.T0S[0]}
+
     # ------------------------------------------------------------- real code
     def _mk(self, case):
         pb, np, u = self.pb, self.np, self.u
